@@ -84,6 +84,26 @@ struct Seeds {
             s.pal = {{"inL", "BBBBBBBBx"}, {"new", "B"}, {"new2", "BBBBBBBB"}, {"newL", "BBBBBBBBy"}, {"new3", "D"}};
             shapes.push_back(s);
         }
+        {
+            // separators whose zero-padded slices are byte-identical: keys that differ only in trailing 0x00 bytes, spread over
+            // several border nodes (length is the only tie-break in interior routing / insertion)
+            auto A = [](size_t n) { return std::string("a") + std::string(n - 1, '\0'); };
+            ykc::Shape s;
+            s.name = "ZPAD";
+            s.inserts = {"0"};
+            for (size_t n = 1; n <= 9; ++n) s.inserts.push_back(A(n));
+            for (const char* k : {"b", "c", "d", "e", "f", "g", "1", "2", "3", "4", "5", "6", "7", "8"}) s.inserts.emplace_back(k);
+            s.pal = {{"in", A(1)}, {"in2", A(4)}, {"in3", A(8)}, {"inL", A(9)}, {"new", A(10)}, {"new2", "9"}};
+            shapes.push_back(s);
+            ykc::Shape t;
+            t.name = "ZPAD2";
+            // the same family under a common 8-byte prefix (layer 1) and with 0xFF padding neighbours
+            t.inserts = {"0"};
+            for (size_t n = 1; n <= 9; ++n) t.inserts.push_back(ykc::P8() + A(n));
+            for (const char* k : {"b", "c", "d", "e", "f", "g", "1", "2", "3", "4", "5", "6", "7", "8"}) t.inserts.push_back(ykc::P8() + k);
+            t.pal = {{"in", ykc::P8() + A(1)}, {"in2", ykc::P8() + A(5)}, {"in3", ykc::P8() + A(8)}, {"inL", ykc::P8() + A(9)}, {"new", ykc::P8() + "9"}};
+            shapes.push_back(t);
+        }
         // drained variants: all keys removed again in ascending / descending / middle-out order
         std::vector<ykc::Shape> drained;
         for (auto& sh : shapes) {
